@@ -327,7 +327,7 @@ def pick_type(models, kind, avoid=()):
 
 
 def rng_disposition(index):
-	return ['inline', 'abstract', None][index % 3]
+	return ['inline', 'abstract'][index % 2]  # never concrete: a concrete helper would owe the constants of inherited initializers
 
 
 def apply_break(models, site):
